@@ -13,6 +13,7 @@ claimed = {
  "C04": ("5.4", "Coq theorems: one constructor run / one spawn, at most one drop-or-move of the actor, exit-cause classification (never ends earlier), draining-shutdown termination theorem (all accepted calls executed in order, then a single drop). Premise wf_C04 (constructor statement order, `?` exactly for Option/Result under any path, matching Some/Ok wrap, arguments passed in order) per translated instance; lifecycle probes on real runtimes.", "Coq invariant + termination proofs over LTS + translated instances + runtime probes"),
  "C08": ("5.8", "Universal Coq theorems over the runtime LTS: queue length <= n, a blocked caller's state is unchanged and its call is accepted at the tail when space frees, nothing discarded while alive, unbounded never waits. Premises wf_C08 / cap_of = option re-established by vm_compute on translated instances (4 libs x channel option x impl blocks x families with inherited/overridden member capacity); parked-actor bursts on the real runtimes.", "Coq invariant proof over LTS + translated instances + runtime probes"),
  "C09": ("5.9", "Coq theorems: actor moved out at most once; the value handed over is the sequential state after every executed call; all calls accepted before the stop message are executed first; with the guard and another clone alive the call is refused and nothing changes; sender count = live handles. Premise wf_C09 and the static half (guard/visibility/Clone per return-type shape) evaluated on translated instances; consume probes on real runtimes.", "Coq invariant proofs over LTS + translated instances + static oracle on real expansions + runtime probes"),
+ "C10": ("5.10", "Coq theorems over the family LTS (any number of members and methods, every schedule of member loops and arriving messages): one constructor run; at most one exclusive lock holder and then nobody else; a member executing a &mut self method holds the lock alone; Mutex: one holder; executed calls replayed sequentially in lock order give the shared state and results; per-member execution order = its queue order; RwLock readers can overlap (witness). Premise wf_C10 (Arc<lock> type per lib, per-arm lock statement by receiver mutability, family-static receivers lock-free, constructor wraps once and clones per member) by vm_compute on translated family expansions; contention + rendezvous probes on std/tokio/async_std.", "Coq invariant proofs over family LTS + translated instances + runtime probes"),
  "C20": ("5.20", "Coq theorems: in every reachable dead state every caller inside a call has an enabled step (no hang, draining receivers), that step ends in a panic unless the reply was already produced, no fabricated values. Refuted (proved with witness) for receivers that keep queued messages (async-channel): known finding. Premise wf_C20 (every send / wait / reply panics and mentions the closed channel) per translated instance; fault-injection probes on real runtimes.", "Coq invariant proofs over LTS + refutation witness + translated instances + fault probes"),
 }
 checks = []
